@@ -71,7 +71,7 @@ def jobs(tier, seed):
             if ok and any(op in ("f1", "f2") for op in h):
                 hist.append(list(h))
     js = []
-    for cls in ("ThresholdOptimizer", "CorrelationRemover", "GridSearch", "ExponentiatedGradient", "Adversarial"):
+    for cls in ("ThresholdOptimizer", "CorrelationRemover", "GridSearch", "ExponentiatedGradient", "Adversarial", "AdversarialAuto"):
         for ci in range(0, len(hist), 12):
             js.append({"id": f"{cls}-{ci // 12}", "cls": cls, "histories": hist[ci:ci + 12]})
     torch_hist = [h for h in hist if "k" not in h and "c" not in h and len(h) <= 3]
@@ -213,6 +213,8 @@ class EGAdapter(Adapter):
 
 
 class AdvAdapter(Adapter):
+    epochs, batch_size = 1, 2
+
     def datasets(self, mk):
         return {"f1": "f1", "f2": "f2"}
 
@@ -220,8 +222,8 @@ class AdvAdapter(Adapter):
         from fairlearn.adversarial import AdversarialFairnessClassifier
         from harness.c17 import _engine
 
-        return AdversarialFairnessClassifier(backend=_engine(), predictor_model=[], adversary_model=[], epochs=1, batch_size=2, shuffle=False, random_state=0,
-                                             warm_start=False)
+        return AdversarialFairnessClassifier(backend=_engine(), predictor_model=[], adversary_model=[], epochs=self.epochs, batch_size=self.batch_size, shuffle=False,
+                                             random_state=0, warm_start=False)
 
     def _d(self, D):
         n = 4 if D == "f1" else 5
@@ -249,6 +251,11 @@ class AdvAdapter(Adapter):
         p = est.get_params(deep=False)
         p.pop("backend", None)
         return p
+
+
+class AdvAutoAdapter(AdvAdapter):
+    """the 'automatic' sentinel values of the schedule parameters: batch_size=-1 (one batch = all rows of the data being fitted)"""
+    epochs, batch_size = 2, -1
 
 
 class AdvTorchAdapter(Adapter):
@@ -290,7 +297,7 @@ class AdvTorchAdapter(Adapter):
         return p
 
 
-ADAPTERS = {"AdvTorch": AdvTorchAdapter, "ThresholdOptimizer": TOAdapter, "CorrelationRemover": CRAdapter, "GridSearch": GSAdapter, "ExponentiatedGradient": EGAdapter, "Adversarial": AdvAdapter}
+ADAPTERS = {"AdvTorch": AdvTorchAdapter, "ThresholdOptimizer": TOAdapter, "CorrelationRemover": CRAdapter, "GridSearch": GSAdapter, "ExponentiatedGradient": EGAdapter, "Adversarial": AdvAdapter, "AdversarialAuto": AdvAutoAdapter}
 
 
 def _eq_params(a, b):
